@@ -6,6 +6,7 @@ from vlib import VERIF
 SPEC = os.path.join(VERIF, 'spec', 'proxy')
 PREV = {'off': 'none', 'zero': '0', 'small': '100', 'huge': '1000000'}
 UNIT = [50, 5000, 70000]
+QSIZE = {'small': 300, 'over64k': 70000, 'big': 3000001, 'huge': 6500000}
 
 
 def run(ctx):
@@ -14,6 +15,18 @@ def run(ctx):
     ctx.log('TLC: %d states, %d scenario classes (BypassEarlyIsVirgin holds on the model)' % (res.distinct, len(scens)))
     scens.sort(key=lambda c: json.dumps(c, sort_keys=True))
     rnd = random.Random(ctx.seed)
+    qscens = [s for s in scens if s['par']['mode'] == 'reqmod']
+    scens = [s for s in scens if s['par']['mode'] == 'respmod']
+    if not ctx.thorough:
+        rnd.shuffle(qscens)
+        seen, keep = set(), []
+        for s in qscens:
+            p = s['par']
+            k = (p['icap'], p['bypass'], p['preview'] == 'off', p['size'], p['framing'], p['slow'])
+            if k not in seen and p['size'] != 'huge' and len(keep) < 170:
+                seen.add(k)
+                keep.append(s)
+        qscens = keep
     if not ctx.thorough:
         rnd.shuffle(scens)
         seen, keep = set(), []
@@ -93,7 +106,7 @@ def run(ctx):
         async def one_q(i, p):
             r0 = random.Random(ctx.seed * 7001 + i)
             n = 'q%d' % i
-            lv = p['size'] + r0.randrange(0, 17)
+            lv = QSIZE[p['size']] + r0.randrange(0, 17)
             vv, va = 2 * i + 1, 2 * i + 2
             la = r0.choice([0, 30, 9000, 80000])
             plan[n] = {'kind': p['icap'], 'va': va, 'la': la, 'abody': peers.body_bytes(va, la), 'aframing': p['aframing'], 'vid': n}
@@ -116,6 +129,7 @@ def run(ctx):
                 payload = body
             c = peers.Client(rec, sq.port, name='c' + n)
             status = 0
+            t0 = asyncio.get_event_loop().time()
             try:
                 await c.open()
                 try:
@@ -138,16 +152,9 @@ def run(ctx):
             icap_fail = 'early' if p['icap'] in ('status500', 'abortBeforeReply', 'abortMidHead', 'garbage') else ('late' if (p['icap'] == 'abortMidBody' and la > 0) else 'none')
             produced_adapted = p['icap'] in ('200', '100then200', 'abortMidBody')
             out.append({'vv': vv, 'lv': lv, 'va': va if produced_adapted else -1, 'la': la, 'bypass': bool(p['bypass']), 'icapFail': icap_fail, 'squidError': q is None,
-                        'hv': hv, 'bv': bv, 'blen': blen, 'intact': bool(intact), 'complete': bool(complete), 'status': status, 'par': dict(p, mode='reqmod'),
-                        'pred': None, 'n': n})
-        qplans = []
-        for icapk, byp in (('204', 0), ('204preview', 0), ('204preview', 1), ('status500', 1), ('abortBeforeReply', 1), ('200', 0), ('100then200', 0), ('status500', 0)):
-            for prev in (('small', 'zero', 'off', 'huge') if ctx.thorough else ('small', 'off')):
-                for size in ((300, 70000, 1500000, 3000001, 6500000) if ctx.thorough else (300, 70000, 3000001)):
-                    for framing in ('length', 'chunked'):
-                        for slow in ((0, 1) if size > 1000000 else (0,)):
-                            qplans.append({'icap': icapk, 'bypass': byp, 'preview': prev, 'size': size, 'framing': framing, 'slow': slow,
-                                           'aframing': 'length' if (len(qplans) % 3) else 'none'})
+                        'hv': hv, 'bv': bv, 'blen': blen, 'intact': bool(intact), 'complete': bool(complete), 'status': status, 'par': {k: v for k, v in p.items() if k != 'pred'},
+                        'pred': p['pred'], 'n': n, 'secs': round(asyncio.get_event_loop().time() - t0, 1)})
+        qplans = [dict(s['par'], pred=s['pred']) for s in qscens]
         try:
             await escen.gather_limited([one(i, s) for i, s in enumerate(scens)], limit=8)
             await escen.gather_limited([one_q(i, p) for i, p in enumerate(qplans)], limit=6)
@@ -185,13 +192,13 @@ def run(ctx):
             json.dumps(o['par']), o['status'], o['hv'], o['vv'], o['lv'], o['va'], o['blen'], o['complete'], o['squidError']), {'kind': 'icap', 'class': cls, 'case': o})
     nd = 0
     for o in out:
-        if o['pred'] is None:
+        if o['pred'] == 'any':
             continue
         got = 'error' if o['squidError'] else ('virgin' if o['hv'] == o['vv'] else ('adapted' if o['complete'] else 'truncated-adapted'))
-        if got != o['pred']:
+        if got != o['pred'] and not (o['pred'] == 'adapted-maybe-truncated' and got in ('adapted', 'truncated-adapted')):
             nd += 1
             if len(ctx.drift) < 5:
-                ctx.drift.append('IcapScen predicts %s, squid delivered %s: %s' % (o['pred'], got, json.dumps(o['par'])))
+                ctx.drift.append('IcapScen predicts %s, squid delivered %s (status %s): %s' % (o['pred'], got, o['status'], json.dumps(o['par'])))
     ctx.cov['drift_total'] = nd
     ctx.cov['impl_distinct'] = len({json.dumps(o['par'], sort_keys=True) for o in out})
     ctx.cov['icap_requests_seen'] = len(ilog)
@@ -201,11 +208,12 @@ def run(ctx):
     ctx.cov['reqmod_big_virgin_echoed_complete'] = sum(1 for o in qs if o['lv'] > 1000000 and o['hv'] == o['vv'] and o['complete'] and o['intact'])
     tab = {}
     for o in qs:
-        k = '%s/bypass=%d/preview=%s/%s' % (o['par']['icap'], o['par']['bypass'], o['par']['preview'], 'over64k' if o['lv'] > 65535 else 'small')
+        k = '%s/bypass=%d/preview=%s/%s' % (o['par']['icap'], o['par']['bypass'], 'off' if o['par']['preview'] == 'off' else 'on', 'over64k' if o['lv'] > 65535 else 'small')
         r = 'nothing' if o['squidError'] else ('virgin' if o['hv'] == o['vv'] else 'adapted')
         tab.setdefault(k, {}).setdefault(r, 0)
         tab[k][r] += 1
     ctx.cov['reqmod_outcomes'] = tab
+    ctx.cov['reqmod_slowest'] = [[o['secs'], o['par']['icap'], o['par']['bypass'], o['par']['preview'], o['par']['size'], o['par']['framing'], o['par']['slow'], o['status']] for o in sorted(qs, key=lambda o: -o['secs'])[:8]]
     ctx.cov['must_be_virgin_cases'] = sum(1 for o in out if o['mustVirgin'])
     ctx.cov['previews_seen'] = sum(1 for l in ilog if l['preview'] is not None)
     ctx.cov['delivered'] = {k: sum(1 for o in out if ('error' if o['squidError'] else ('virgin' if o['hv'] == o['vv'] else 'adapted')) == k) for k in ('virgin', 'adapted', 'error')}
@@ -213,6 +221,6 @@ def run(ctx):
         ctx.sample({k: o[k] for k in o if k != 'n'})
     ctx.cov['rule'] = ('classes = IcapScen.tla (body units x preview off/0/100/huge x ICAP behaviour 200/204/204-in-preview/100-continue/500/abort before reply, mid head, mid body/garbage x bypass x adapted header with/without Content-Length); '
                        'RESPMOD through a scripted ICAP server; TLC evaluates Icap.tla on what the client received. '
-                       'REQMOD: ICAP behaviour x preview x upload size up to 6.5 MB x Content-Length/chunked x origin reading at once / late behind a 4 KB window; '
+                       'REQMOD classes from the same module: ICAP behaviour x preview x bypass x upload size class (300 B .. 6.5 MB) x Content-Length/chunked x origin reading at once / late behind a 4 KB window; '
                        'Icap.tla is evaluated on what the origin received.')
     ctx.assumptions += ['icap_206_enable off: 206/use-original-body is a legitimate fourth outcome outside the statement']
